@@ -152,7 +152,7 @@ Proof.
     rewrite app_length in IH. fold e in IH.
     replace ((pre ++ r) ++ concat rows ++ post) with (pre ++ (r ++ concat rows) ++ post) in IH
       by (rewrite <- !app_assoc; reflexivity).
-    rewrite IH by lia. cbn [map]. f_equal. f_equal. lia.
+    rewrite IH by lia. cbn [map]. f_equal. f_equal. rewrite app_length. unfold e. lia.
 Qed.
 
 Lemma forallb_zeros n : forallb (N.eqb 0%N) (zeros n) = true.
@@ -196,6 +196,19 @@ Proof.
   - exact Hw.
 Qed.
 
+Lemma skipn_add {A} a b (l : list A) : skipn a (skipn b l) = skipn (a + b) l.
+Proof.
+  revert l. induction b as [|b IH]; intros l; [rewrite Nat.add_0_r; reflexivity|].
+  destruct l as [|x l]; [rewrite !skipn_nil; reflexivity|].
+  rewrite Nat.add_succ_r. cbn [skipn]. apply IH.
+Qed.
+
+Lemma firstn_add_split {A} a b (l : list A) : firstn (a + b) l = firstn a l ++ firstn b (skipn a l).
+Proof.
+  revert l. induction a as [|a IH]; intros l; [reflexivity|].
+  destruct l as [|x l]; [destruct b; reflexivity|]. cbn [Nat.add firstn skipn app]. f_equal. apply IH.
+Qed.
+
 (* ---- strictness: whatever decodes is the canonical encoding ---- *)
 Lemma hint_rows_sound omega idx : wfb idx -> length idx = omega -> forall cnts index ps fin,
   wfb cnts -> index <= omega ->
@@ -225,15 +238,10 @@ Proof.
       unfold row. apply wfb_firstn, wfb_skipn. exact Hw.
     + lia.
     + lia.
-    + cbn [concat]. rewrite Hcat.
-      unfold row.
-      rewrite <- (firstn_skipn (N.to_nat e - index) (skipn index idx)) at 3.
-      rewrite firstn_app. rewrite firstn_firstn.
-      replace (Nat.min (fin - index) (N.to_nat e - index)) with (N.to_nat e - index) by lia.
-      f_equal. rewrite firstn_length, skipn_length.
-      replace (Nat.min (N.to_nat e - index) (length idx - index)) with (N.to_nat e - index) by lia.
-      rewrite skipn_skipn. replace (N.to_nat e - index + index) with (N.to_nat e) by lia.
-      f_equal. lia.
+    + cbn [concat]. rewrite Hcat. unfold row.
+      assert (SK : skipn (N.to_nat e) idx = skipn (N.to_nat e - index) (skipn index idx)).
+      { rewrite skipn_add. f_equal. lia. }
+      rewrite SK, <- firstn_add_split. f_equal. lia.
     + cbn [hint_counts]. rewrite Lrow.
       replace (index + (N.to_nat e - index)) with (N.to_nat e) by lia.
       rewrite N2Nat.id. rewrite N.mod_small by exact He. f_equal. exact Hcnt.
